@@ -1494,7 +1494,7 @@ func (v verifCreds) GetRequestMetadata(ctx context.Context, uri ...string) (map[
 	}
 	out := map[string]string{}
 	for k, val := range v.c.MD {
-		out[k] = val
+		out[decStr(k)] = decStr(val)
 	}
 	if v.tag != "" {
 		out[tagKey] = v.tag
@@ -1507,10 +1507,19 @@ func (w *World) callCtx(r *rpcState) (context.Context, []grpc.CallOption) {
 	sp := r.spec
 	ctx := context.Background()
 	var cancel context.CancelFunc
-	if sp.Timeout > 0 {
+	switch {
+	case sp.Timeout > 0 && sp.CtxCause:
+		// the application attaches its own causes: ctx.Err() is still DeadlineExceeded / Canceled, context.Cause(ctx) is not
+		w.addTimer(time.Now().Add(time.Duration(sp.Timeout) * time.Millisecond))
+		ctx, cancel = context.WithTimeoutCause(ctx, time.Duration(sp.Timeout)*time.Millisecond, errors.New("verif: the application's own timeout cause"))
+	case sp.Timeout > 0:
 		w.addTimer(time.Now().Add(time.Duration(sp.Timeout) * time.Millisecond))
 		ctx, cancel = context.WithTimeout(ctx, time.Duration(sp.Timeout)*time.Millisecond)
-	} else {
+	case sp.CtxCause:
+		var cc context.CancelCauseFunc
+		ctx, cc = context.WithCancelCause(ctx)
+		cancel = func() { cc(errors.New("verif: the application's own cancellation cause")) }
+	default:
 		ctx, cancel = context.WithCancel(ctx)
 	}
 	w.mu.Lock()
@@ -2191,6 +2200,7 @@ func unaryHandler(srv any, ctx context.Context, dec func(any) error, _ grpc.Unar
 					resp = msgOf(payload(r.idx, 'p', 0, size))
 				}
 				setErr(rec, retErr)
+				w.aimCancel(r, sp.CancelAtReturnUs)
 				w.markDone(a)
 			}}
 		}
@@ -2202,6 +2212,23 @@ func unaryHandler(srv any, ctx context.Context, dec func(any) error, _ grpc.Unar
 		retErr = status.Error(codes.Aborted, "verif: handler released by teardown")
 	}
 	return resp, retErr
+}
+
+// aimCancel (free-running engines): cancel the caller's context us microseconds from now - used to aim a cancellation at the
+// arrival of what the handler is about to send (its close frame, when called from the return operation).
+func (w *World) aimCancel(r *rpcState, us int) {
+	if us <= 0 || !w.free || r == nil {
+		return
+	}
+	go func() {
+		time.Sleep(time.Duration(us) * time.Microsecond)
+		w.mu.Lock()
+		c := r.cancel
+		w.mu.Unlock()
+		if c != nil {
+			c()
+		}
+	}()
 }
 
 func (w *World) opHandlerMD(ctx context.Context, ss grpc.ServerStream, op MDOp, rec *OpRec) {
@@ -2381,6 +2408,7 @@ func streamHandlerFor(shape string) grpc.StreamHandler {
 						retErr = status.FromContextError(ctx.Err()).Err()
 					}
 					setErr(rec, retErr)
+					w.aimCancel(r, sp.CancelAtReturnUs)
 					w.markDone(as)
 				}}
 			}
